@@ -30,6 +30,9 @@ OnlySourceBytes == \A i \in 1..Len(dest) : dest[i] \in 1..len
 \* the number of partial reads is what the loop structure implies: one per full or partial chunk, plus the final empty one
 ReadCount == pc = "done" => reads = ((len - start) + chunk - 1) \div chunk + 1
 Terminates == <>(pc = "done")
+\* the counters follow the abstract machine whose inductive invariant Apalache discharges for every length, start and chunk size
+Abs == INSTANCE CopyBounds WITH written <- Len(dest), done <- (pc = "done")
+RefinesBounds == Abs!Spec
 Export == pc = "done" => PrintT("S|" \o ToJson([id |-> <<len, chunk, start>>, steps |-> << [op |-> "copy_loop", len |-> len, chunk |-> chunk, start |-> start,
                                                   dest |-> dest, reads |-> reads] >>]))
 ====
